@@ -84,7 +84,7 @@ def shard(arg):
 
 
 def run(ctx):
-    per = 100 if ctx.quick else 2500
+    per = 100 if ctx.quick else 6000
     args = [(ctx.seed * 1000 + i, per, ctx.deadline) for i in range(16)]
     rep = fw.run_shards(ctx, "props.c07", "shard", args)
     rep.extra["classes_hit"] = {k[len("orbits_n"):]: len(v) for k, v in rep.hist.items() if k.startswith("orbits_n")}
